@@ -38,8 +38,11 @@ type Task struct {
 type Actor struct {
 	Name    string
 	Enabled func() bool
-	Run     func() string // returns a short outcome label for the event log
-	prio    int
+	// Run returns a short outcome label for the event log and whether it made
+	// progress (a receive that found nothing to receive did not).
+	Run  func() (string, bool)
+	prio int
+	idle bool // made no progress and nothing has run since: not a candidate (fairness)
 }
 
 // PanicRec is a panic recovered inside an instrumented function.
@@ -359,9 +362,32 @@ func (s *Sim) Run() {
 			}
 		}
 		for _, a := range s.actors {
-			if a.Enabled() {
+			if !a.idle && a.Enabled() {
 				cands = append(cands, cand{a: a})
 			}
+		}
+		if len(s.parked) == 0 && len(cands) > 0 {
+			// only simulator-owned actions are left: nothing else can change the
+			// state, so an action that makes no progress now never will
+			progressed := false
+			for _, c := range cands {
+				label, ok := c.a.Run()
+				if ok {
+					s.Steps++
+					s.lastID = c.id()
+					s.logEvent("@" + c.a.Name + "=" + label)
+					progressed = true
+					for _, a := range s.actors {
+						a.idle = false
+					}
+					break
+				}
+				c.a.idle = true
+			}
+			if progressed {
+				continue
+			}
+			cands = nil
 		}
 		if len(cands) == 0 {
 			if s.AllClientsDone() {
@@ -404,10 +430,20 @@ func (s *Sim) Run() {
 			}
 			t.runs++
 			s.logEvent(t.ID + "@" + t.site)
+			for _, a := range s.actors {
+				a.idle = false
+			}
 			t.wake <- struct{}{}
 		} else {
-			r := c.a.Run()
+			r, ok := c.a.Run()
 			s.logEvent("@" + c.a.Name + "=" + r)
+			if ok {
+				for _, a := range s.actors {
+					a.idle = false
+				}
+			} else {
+				c.a.idle = true
+			}
 		}
 	}
 	// teardown: nothing is ever released to run free
